@@ -289,6 +289,9 @@ pub fn prefix_num(p: Prefix) -> u8 {
 /// Builds a real emulator in the described state: RAM through the bus (`verif_write_mem`, paging
 /// each bank in at 0xC000 on the 128K), the latch through an OUT to 7FFD, the border through an
 /// OUT to FE, the AY through its two ports, registers through the `Regs` setters.
+/// seeds of the pattern pages held by the ROMs of every machine built here (ROM n: ROM_SEED + n)
+pub const ROM_SEED: u64 = 0x501;
+
 pub fn build(st: &MState) -> Emu {
     let mut c = Cfg::new(st.m128);
     c.sound = true;
@@ -296,6 +299,23 @@ pub fn build(st: &MState) -> Emu {
     c.kempston = st.kemp;
     c.mouse = st.mouse;
     let mut e = emu(&c);
+    // non-zero ROM contents (the Lean driver's machine holds the same pattern pages): a byte the loader reads
+    // from ROM — a return address whose stack word reaches below 0x4000 — is then distinguishable from zero
+    {
+        struct Roms(Vec<VAsset>);
+        impl rustzx_core::host::RomSet for Roms {
+            type Asset = VAsset;
+            fn format(&self) -> rustzx_core::host::RomFormat {
+                rustzx_core::host::RomFormat::Binary16KPages
+            }
+            fn next_asset(&mut self) -> Option<VAsset> {
+                if self.0.is_empty() { None } else { Some(self.0.remove(0)) }
+            }
+        }
+        let n = if st.m128 { 2 } else { 1 };
+        let pages: Vec<VAsset> = (0..n).map(|k| VAsset::new(pat_bank(ROM_SEED + k as u64))).collect();
+        e.load_rom(Roms(pages)).ok().expect("load_rom of pattern pages");
+    }
     if st.m128 {
         for (k, b) in st.banks.iter().enumerate() {
             if b.seed == 0 && b.ov.is_empty() {
@@ -307,6 +327,11 @@ pub fn build(st: &MState) -> Emu {
             }
         }
         e.verif_write_io(0x7FFD, st.latch);
+        if st.latch & 0x20 != 0 {
+            // paging is locked now: a further write with other bank/screen/ROM bits is ignored by the hardware
+            // and must not be remembered anywhere (the latch a snapshot stores is the one that took effect)
+            e.verif_write_io(0x7FFD, st.latch ^ 0x17);
+        }
     } else {
         for (k, b) in st.banks.iter().enumerate() {
             if b.seed == 0 && b.ov.is_empty() {
